@@ -475,6 +475,23 @@ func checkC09(c *Check) {
 		main2 := &File{Name: "main.tsh", Imports: []Import{{Alias: "x", Path: "q1.tsh"}, {Alias: "y", Path: "sub/q2.tsh"}}, Stmts: []Stmt{pr(Call{Alias: "x", Fn: "Up"}, Call{Alias: "x", Fn: "Up"}, Call{Alias: "y", Fn: "Up"})}}
 		cases = append(cases, mcase{"twin-tokens/blank-lines", &Program{Files: []*File{main2, q1, q2}}})
 	}
+	// diamonds whose shared file calls n = 1..9 distinct private functions at top level while each importer's own
+	// top-level code is one single call of a private function nobody else calls
+	for n := 1; n <= 9; n++ {
+		shared := &File{Name: "settings.tsh"}
+		total := Expr(il(0))
+		for j := 1; j <= n; j++ {
+			shared.Stmts = append(shared.Stmts, fn(fmt.Sprintf("part%d", j), nil, []Type{TInt}, ret(il(int64(j)))), def(fmt.Sprintf("v%d", j), call(fmt.Sprintf("part%d", j))))
+			total = bin("+", total, vr(fmt.Sprintf("v%d", j)))
+		}
+		shared.Stmts = append(shared.Stmts, fn("Get", []Param{{"k", TInt}}, []Type{TInt}, ret(bin("*", vr("k"), total))))
+		mk := func(name, priv, pub string, k int64) *File {
+			return &File{Name: name, Imports: []Import{{Alias: "settings", Path: "settings.tsh"}}, Stmts: []Stmt{
+				def("value", il(0)), fn(priv, nil, nil, set("value", Call{Alias: "settings", Fn: "Get", Args: []Expr{il(k)}})), fn(pub, nil, []Type{TInt}, ret(vr("value"))), callS(priv)}}
+		}
+		mainF := &File{Name: "main.tsh", Imports: []Import{{Alias: "net", Path: "net.tsh"}, {Alias: "disk", Path: "disk.tsh"}}, Stmts: []Stmt{pr(sl("address"), Call{Alias: "net", Fn: "Address"}), pr(sl("root"), Call{Alias: "disk", Fn: "Root"})}}
+		cases = append(cases, mcase{fmt.Sprintf("diamond-single-top-level-call/shared-calls=%d", n), &Program{Files: []*File{mainF, mk("net.tsh", "setup", "Address", 2), mk("disk.tsh", "mount", "Root", 3), shared}}})
+	}
 	// random acyclic import graphs over 3-6 files with the module content above (every file beyond main is reached;
 	// files reached along several paths are the definition-only kind)
 	nShapes := c.Pick(20, 400)
